@@ -144,13 +144,29 @@ Definition set_done (v : list dev) (r : conn) : conn := mkConn (chans r) (transp
 (* Channel-level code runs in a context: the channel, and the continuations scheduled, packets
    sent and awaited calls completed so far by the running handler.                            *)
 Record cx := mkCx { x_ch : chan; x_k : list kont; x_p : list pkt; x_d : list dev }.
-Definition upc (f : chan -> chan) (x : cx) : cx := mkCx (f (x_ch x)) (x_k x) (x_p x) (x_d x).
-Definition xk (k : kont) (x : cx) : cx := mkCx (x_ch x) (x_k x ++ [k]) (x_p x) (x_d x).
-Definition xp (p : pkt) (x : cx) : cx := mkCx (x_ch x) (x_k x) (x_p x ++ [p]) (x_d x).
-Definition xds (d : list dev) (x : cx) : cx := mkCx (x_ch x) (x_k x) (x_p x) (x_d x ++ d).
+Definition upc (f : chan -> chan) (x : cx) : cx :=
+  match x with mkCx ch k p d => mkCx (f ch) k p d end.
+Definition xk (k0 : kont) (x : cx) : cx :=
+  match x with mkCx ch k p d => mkCx ch (k ++ [k0]) p d end.
+Definition xp (p0 : pkt) (x : cx) : cx :=
+  match x with mkCx ch k p d => mkCx ch k (p ++ [p0]) d end.
+Definition xds (d0 : list dev) (x : cx) : cx :=
+  match x with mkCx ch k p d => mkCx ch k p (d ++ d0) end.
 (* SSHChannel.send_packet: silently dropped when _send_chan is None *)
-Definition csend (p : pkt) (x : cx) : cx := if schan (x_ch x) then xp p x else x.
+Definition csend (p0 : pkt) (x : cx) : cx :=
+  match x with mkCx ch k p d => if schan ch then mkCx ch k (p ++ [p0]) d else mkCx ch k p d end.
 Definition addlog (e : cb) (ch : chan) : chan := set_clog (clog ch ++ [e]) ch.
+
+(* `force x f` = f x (lemma force_eq).  Every channel-level handler is written `force x (fun x => body)`:
+   the handler waits for its argument to be a constructor term before its body (which mentions x
+   several times) is entered, which keeps symbolic evaluation in the proofs linear. *)
+Definition force (x : cx) (f : cx -> cx) : cx :=
+  match x with
+  | mkCx ch k p d =>
+      match ch with
+      | mkChan a0 a1 a2 a3 a4 a5 a6 a7 a8 a9 a10 a11 a12 a13 a14 a15 a16 a17 a18 a19 a20 a21 a22 => f (mkCx (mkChan a0 a1 a2 a3 a4 a5 a6 a7 a8 a9 a10 a11 a12 a13 a14 a15 a16 a17 a18 a19 a20 a21 a22) k p d)
+      end
+  end.
 
 Definition ss_closing (s : sstate) : bool := match s with SClosePending | SClosed => true | _ => false end.
 Definition rs_openish (r : rstate) : bool := match r with ROpen | REofPending | REof => true | _ => false end.
@@ -158,34 +174,40 @@ Definition rs_openish (r : rstate) : bool := match r with ROpen | REofPending | 
 (* ---- stream.py: SSHStreamSession callbacks --------------------------------------------- *)
 (* _unblock_read *)
 Definition wake_read (c : nat) (r : wres) (x : cx) : cx :=
-  if st_rd (x_ch x) then xds [(WRead, c, r)] (upc (set_st_rd false) x) else x.
+  force x (fun x =>
+  if st_rd (x_ch x) then xds [(WRead, c, r)] (upc (set_st_rd false) x) else x).
 (* _unblock_drain for every drain waiter (caller has established not _should_block_drain) *)
 Definition wake_drains (c : nat) (r : wres) (x : cx) : cx :=
-  xds (repeat (WDrain, c, r) (st_dr (x_ch x))) (upc (set_st_dr 0) x).
+  force x (fun x =>
+  xds (repeat (WDrain, c, r) (st_dr (x_ch x))) (upc (set_st_dr 0) x)).
 (* channel._deliver_data -> session.data_received (only `if self._session is not None`) *)
 Definition sess_data (c : nat) (x : cx) : cx :=
+  force x (fun x =>
   match se (x_ch x) with
   | SLive => wake_read c WOk (upc (fun ch => addlog CbData (set_st_data true ch)) x)
   | _ => x
-  end.
+  end).
 (* session.eof_received: _eof_received = True, readers unblocked *)
 Definition sess_eof (c : nat) (x : cx) : cx :=
+  force x (fun x =>
   match se (x_ch x) with
   | SLive => wake_read c WOk (upc (fun ch => addlog CbEof (set_eofd true (set_st_eof true ch))) x)
   | _ => x
-  end.
+  end).
 (* session.connection_lost(exc): _connection_lost = True; if no EOF yet the exception is queued
    for readers and eof_received() runs; every drain waiter is released; then _session = None *)
 Definition sess_lost (c : nat) (e : bool) (x : cx) : cx :=
+  force x (fun x =>
   let x := upc (addlog (CbLost e)) x in
   let x := if st_eof (x_ch x) then x
            else wake_read c (if e then WErr else WOk) (upc (set_st_eof true) x) in
   let x := wake_drains c WErr x in
-  upc (set_se SGone) x.
+  upc (set_se SGone) x).
 
 (* ---- channel.py ------------------------------------------------------------------------- *)
 (* _pause_resume_writing (water marks low = high) *)
 Definition prw (c : nat) (x : cx) : cx :=
+  force x (fun x =>
   let ch := x_ch x in
   if spaused ch then
     match sbuf ch with
@@ -204,18 +226,20 @@ Definition prw (c : nat) (x : cx) : cx :=
                | _ => x
                end
     | _ => x
-    end.
+    end).
 
 (* _close_send *)
 Definition close_send (c : nat) (x : cx) : cx :=
+  force x (fun x =>
   let x := upc (set_sbuf BEmpty) x in
   match ss (x_ch x) with
   | SClosed => x
   | _ => upc (fun ch => set_ss SClosed (set_schan false ch)) (csend (KtClose c) x)
-  end.
+  end).
 
 (* tail of _flush_send_buf (after the send loop left the buffer in class sbuf) *)
 Definition flush_tail (c : nat) (x : cx) : cx :=
+  force x (fun x =>
   let x := prw c x in
   match sbuf (x_ch x) with
   | BEmpty => match ss (x_ch x) with
@@ -224,29 +248,33 @@ Definition flush_tail (c : nat) (x : cx) : cx :=
               | _ => x
               end
   | _ => x
-  end.
+  end).
 
 (* write_eof *)
 Definition write_eof (c : nat) (x : cx) : cx :=
+  force x (fun x =>
   match ss (x_ch x) with
   | SOpen => flush_tail c (upc (set_ss SEofPending) x)
   | _ => x
-  end.
+  end).
 
 (* write(data) with non-empty data: the environment says in which class the buffer ends up *)
 Definition chan_write (c : nat) (cls : bcls) (x : cx) : cx :=
+  force x (fun x =>
   match ss (x_ch x) with
   | SOpen => flush_tail c (upc (set_sbuf cls) x)
   | _ => x                                          (* BrokenPipeError *)
-  end.
+  end).
 
 (* _process_window_adjust after its recv_state check *)
 Definition chan_adjust (c : nat) (cls : bcls) (x : cx) : cx :=
+  force x (fun x =>
   let x := match sbuf (x_ch x) with BEmpty => x | _ => upc (set_sbuf cls) x end in
-  flush_tail c x.
+  flush_tail c x).
 
 (* _flush_recv_buf(exc) *)
 Definition flush_recv (c : nat) (e : bool) (x : cx) : cx :=
+  force x (fun x =>
   let x := match rbuf (x_ch x), rpause (x_ch x) with
            | true, PRunning => sess_data c (upc (set_rbuf false) x)
            | _, _ => x
@@ -261,36 +289,41 @@ Definition flush_recv (c : nat) (e : bool) (x : cx) : cx :=
   match rbuf (x_ch x), rs (x_ch x) with
   | false, RClosePending => xk (KChanCleanup c e) (upc (set_rs RClosed) x)
   | _, _ => x
-  end.
+  end).
 
 (* _discard_recv *)
 Definition discard_recv (c : nat) (x : cx) : cx :=
+  force x (fun x =>
   let x := upc (fun ch => set_rpause PRunning (set_rbuf false ch)) x in
   match rs (x_ch x) with
   | RClosePending => xk (KChanCleanup c false) (upc (set_rs RClosed) x)
   | _ => x
-  end.
+  end).
 
 (* close() *)
 Definition chan_close (c : nat) (x : cx) : cx :=
+  force x (fun x =>
   let x := if ss_closing (ss (x_ch x)) then x else flush_tail c (upc (set_ss SClosePending) x) in
-  match rs (x_ch x) with RClosed => x | _ => discard_recv c x end.
+  match rs (x_ch x) with RClosed => x | _ => discard_recv c x end).
 
 (* abort() *)
 Definition chan_abort (c : nat) (x : cx) : cx :=
+  force x (fun x =>
   let x := if ss_closing (ss (x_ch x)) then x else close_send c x in
-  match rs (x_ch x) with RClosed => x | _ => discard_recv c x end.
+  match rs (x_ch x) with RClosed => x | _ => discard_recv c x end).
 
 (* pause_reading / resume_reading *)
 Definition chan_pause (x : cx) : cx := upc (set_rpause PPaused) x.
 Definition chan_resume (c : nat) (x : cx) : cx :=
+  force x (fun x =>
   match rpause (x_ch x) with
   | PRunning => x
   | _ => flush_recv c false (upc (set_rpause PRunning) x)
-  end.
+  end).
 
 (* _cleanup(exc) *)
 Definition chan_cleanup (c : nat) (e : bool) (x : cx) : cx :=
+  force x (fun x =>
   let x := match pc (x_ch x) with
            | CWaitOpen => xk (KCreate c) (upc (set_pc (COpenRes WErr)) x)
            | CWaitReq st => xk (KCreate c) (upc (set_pc (CReqRes st (if e then WErr else WFalse))) x)
@@ -301,45 +334,52 @@ Definition chan_cleanup (c : nat) (e : bool) (x : cx) : cx :=
                (upc (fun ch => set_closed_w 0 (set_cev true ch)) x) in
   if reg (x_ch x)
   then upc (fun ch => set_ncleanup (S (ncleanup ch)) (set_schan false (set_reg false ch))) x
-  else x.
+  else x).
 
 (* process_connection_close(exc) *)
 Definition conn_close_chan (c : nat) (e : bool) (x : cx) : cx :=
-  chan_cleanup c e (close_send c (upc (set_ss SClosed) x)).
+  force x (fun x =>
+  chan_cleanup c e (close_send c (upc (set_ss SClosed) x))).
 
 (* _process_data after its checks: _accept_data *)
 Definition chan_data (c : nat) (x : cx) : cx :=
+  force x (fun x =>
   if ss_closing (ss (x_ch x)) then x
   else match rpause (x_ch x) with
        | PRunning => sess_data c x
        | _ => upc (set_rbuf true) x
-       end.
+       end).
 
 (* _process_eof / _process_close after their checks *)
 Definition chan_peof (c : nat) (x : cx) : cx := flush_recv c false (upc (set_rs REofPending) x).
 Definition chan_pclose (c : nat) (x : cx) : cx :=
-  flush_recv c false (upc (set_rs RClosePending) (close_send c x)).
+  force x (fun x =>
+  flush_recv c false (upc (set_rs RClosePending) (close_send c x))).
 
 (* _process_request -> handler -> _report_response (synchronous handlers) *)
 Definition chan_request (c : nat) (final want accept : bool) (x : cx) : cx :=
+  force x (fun x =>
   let x := if want && negb (ss_closing (ss (x_ch x))) then csend (KtReply c accept) x else x in
   if accept && final
   then let x := match se (x_ch x) with SLive => upc (addlog CbStarted) x | _ => x end in
        chan_resume c x
-  else x.
+  else x).
 
 (* SSHClientChannel.create(): one run of the coroutine up to its next suspension *)
 Definition create_done (c : nat) (r : wres) (x : cx) : cx :=
-  xds [(WCreate, c, r)] (upc (set_pc (CDone r)) x).
+  force x (fun x =>
+  xds [(WCreate, c, r)] (upc (set_pc (CDone r)) x)).
 (* `if not result: self.close(); raise ChannelOpenError` *)
 Definition req_false (c : nat) (x : cx) : cx := create_done c WErr (chan_close c x).
 (* _make_request: returns False at once when _send_chan is None *)
 Definition make_request (c : nat) (st : stage) (x : cx) : cx :=
-  if schan (x_ch x) then upc (set_pc (CWaitReq st)) (csend (KtReq c st) x) else req_false c x.
+  force x (fun x =>
+  if schan (x_ch x) then upc (set_pc (CWaitReq st)) (csend (KtReq c st) x) else req_false c x).
 (* `guard` = the check added by /repo cd5d87d in SSHChannel._open(): once the open waiter has been
    resolved the opener re-checks that the channel still has its connection (false = the code before
    that commit: the session was created and told connection_made on a cleaned-up channel) *)
 Definition create_step_gen (guard : bool) (c : nat) (tr : bool) (x : cx) : cx :=
+  force x (fun x =>
   match pc (x_ch x) with
   | CStart => if tr
               then xp (KtOpen c) (upc (fun ch => set_pc CWaitOpen (set_reg true ch)) x)
@@ -360,18 +400,20 @@ Definition create_step_gen (guard : bool) (c : nat) (tr : bool) (x : cx) : cx :=
   | CReqRes _ WFalse => req_false c x
   | CReqRes _ WErr => create_done c WErr x
   | _ => x
-  end.
+  end).
 
 (* _start_reading *)
 Definition start_reading (c : nat) (x : cx) : cx :=
+  force x (fun x =>
   match rpause (x_ch x) with
   | PStarting => flush_recv c false (upc (set_rpause PRunning) x)
   | _ => x
-  end.
+  end).
 
 (* _finish_open_request (synchronous session object).  When the connection went away in between,
    the session object is told connection_lost(None) (5e4160a) and dropped. *)
 Definition finish_open (c : nat) (x : cx) : cx :=
+  force x (fun x =>
   match se (x_ch x), pc (x_ch x) with
   | SNone, CNone =>
       if reg (x_ch x)
@@ -379,15 +421,17 @@ Definition finish_open (c : nat) (x : cx) : cx :=
                (xp (KtConfirm c) x)
       else xk (KChanCleanup c false) (upc (fun ch => addlog (CbLost false) (set_se SGone ch)) x)
   | _, _ => x                                (* the task runs once, on a channel opened by the peer *)
-  end.
+  end).
 
 (* awaited calls of the application on a channel it holds *)
 Definition chan_wait_closed (c : nat) (x : cx) : cx :=
+  force x (fun x =>
   if handle (x_ch x)
   then if cev (x_ch x) then xds [(WClosed, c, WOk)] x
        else upc (fun ch => set_closed_w (S (closed_w ch)) ch) x
-  else x.
+  else x).
 Definition chan_read (c : nat) (x : cx) : cx :=
+  force x (fun x =>
   if handle (x_ch x)
   then match se (x_ch x) with
        | SLive => if st_data (x_ch x) then xds [(WRead, c, WOk)] (upc (set_st_data false) x)
@@ -396,8 +440,9 @@ Definition chan_read (c : nat) (x : cx) : cx :=
        | SGone => xds [(WRead, c, WOk)] x
        | SNone => x
        end
-  else x.
+  else x).
 Definition chan_drain (c : nat) (x : cx) : cx :=
+  force x (fun x =>
   if handle (x_ch x)
   then match se (x_ch x) with
        | SLive => if st_wp (x_ch x) then upc (fun ch => set_st_dr (S (st_dr ch)) ch) x
@@ -405,7 +450,7 @@ Definition chan_drain (c : nat) (x : cx) : cx :=
        | SGone => xds [(WDrain, c, WOk)] x
        | SNone => x
        end
-  else x.
+  else x).
 
 Definition new_chan (pcv : cpc) (ptyv keepv regv schanv : bool) : chan :=
   mkChan SClosed RClosed schanv BEmpty false false PStarting pcv false ptyv keepv
@@ -525,6 +570,23 @@ Inductive op :=
 | Settle.                            (* ... runs until nothing is ready *)
 
 Definition is_open_wait (ch : chan) : bool := match pc ch with CWaitOpen => true | _ => false end.
+Definition is_req_wait (ch : chan) : bool := match pc ch with CWaitReq _ => true | _ => false end.
+Definition rs_open (ch : chan) : bool := match rs ch with ROpen => true | _ => false end.
+Definition rs_openish_ch (ch : chan) : bool := rs_openish (rs ch).
+(* process_open_confirmation / process_open_failure / _process_response after their checks *)
+Definition chan_confirm (c : nat) (x : cx) : cx :=
+  force x (fun x =>
+  xk (KCreate c)
+     (upc (fun ch => set_pc (COpenRes WOk) (set_rs ROpen (set_ss SOpen (set_schan true ch)))) x)).
+Definition chan_fail (c : nat) (x : cx) : cx :=
+  force x (fun x =>
+  xk (KChanCleanup c false) (xk (KCreate c) (upc (set_pc (COpenRes WErr)) x))).
+Definition chan_reply (c : nat) (ok : bool) (x : cx) : cx :=
+  force x (fun x =>
+  match pc (x_ch x) with
+  | CWaitReq st => xk (KCreate c) (upc (set_pc (CReqRes st (if ok then WOk else WFalse))) x)
+  | _ => x
+  end).
 
 Definition step_gen (guard : bool) (s : conn) (o : op) : conn :=
   match o with
@@ -546,20 +608,13 @@ Definition step_gen (guard : bool) (s : conn) (o : op) : conn :=
   | LConnWaitClosed => if closed s then add_done [(WConnClosed, 0, WOk)] s
                        else set_cclosed_w (S (cclosed_w s)) s
   | PIgnore => rx (fun s => s) s
-  | PConfirm c => rx (chan_pkt c is_open_wait
-                        (fun x => xk (KCreate c)
-                           (upc (fun ch => set_pc (COpenRes WOk) (set_rs ROpen (set_ss SOpen (set_schan true ch)))) x))) s
-  | PFail c => rx (chan_pkt c is_open_wait
-                     (fun x => xk (KChanCleanup c false) (xk (KCreate c) (upc (set_pc (COpenRes WErr)) x)))) s
-  | PData c => rx (chan_pkt c (fun ch => match rs ch with ROpen => true | _ => false end) (chan_data c)) s
-  | PEof c => rx (chan_pkt c (fun ch => match rs ch with ROpen => true | _ => false end) (chan_peof c)) s
-  | PClose c => rx (chan_pkt c (fun ch => rs_openish (rs ch)) (chan_pclose c)) s
-  | PAdjust c cls => rx (chan_pkt c (fun ch => rs_openish (rs ch)) (chan_adjust c cls)) s
-  | PReply c ok => rx (chan_pkt c (fun ch => match pc ch with CWaitReq _ => true | _ => false end)
-                         (fun x => match pc (x_ch x) with
-                                   | CWaitReq st => xk (KCreate c) (upc (set_pc (CReqRes st (if ok then WOk else WFalse))) x)
-                                   | _ => x
-                                   end)) s
+  | PConfirm c => rx (chan_pkt c is_open_wait (chan_confirm c)) s
+  | PFail c => rx (chan_pkt c is_open_wait (chan_fail c)) s
+  | PData c => rx (chan_pkt c rs_open (chan_data c)) s
+  | PEof c => rx (chan_pkt c rs_open (chan_peof c)) s
+  | PClose c => rx (chan_pkt c rs_openish_ch (chan_pclose c)) s
+  | PAdjust c cls => rx (chan_pkt c rs_openish_ch (chan_adjust c cls)) s
+  | PReply c ok => rx (chan_pkt c is_req_wait (chan_reply c ok)) s
   | PGlobalReply ok => rx (fun s => match glob_w s with
                                     | S n => add_done [(WGlobal, 0, if ok then WOk else WFalse)] (set_glob_w n s)
                                     | O => proto_err s
@@ -569,7 +624,7 @@ Definition step_gen (guard : bool) (s : conn) (o : op) : conn :=
                                    then set_ready (ready s ++ [KFinishOpen (length (chans s))])
                                           (set_chans (chans s ++ [new_chan CNone false k true true]) s)
                                    else emit KtOpenFail s) s
-  | PRequest c final want accept => rx (chan_pkt c (fun ch => rs_openish (rs ch)) (chan_request c final want accept)) s
+  | PRequest c final want accept => rx (chan_pkt c rs_openish_ch (chan_request c final want accept)) s
   | PBad => rx proto_err s
   | PAuthOk => rx (fun s => if connect_w s
                             then set_connect_w false (add_done [(WConnect, 0, WOk)] (set_olog (olog s ++ [OAuth]) s))
